@@ -139,6 +139,10 @@ func ParseResponse(data []byte, req *http.Request) (resp *Response, err error) {
 	if err != nil {
 		return nil, errors.Join(errInvalidResponse, fmt.Errorf("failed to read response: %w", err))
 	}
+	// Hop-by-hop fields are removed before an entry is stored, so a Connection field
+	// found here ("Connection: close" for close-delimited bodies) is framing added by
+	// the serialization, not part of the origin's response.
+	r.Header.Del("Connection")
 	resp.Data = r
 	return resp, nil
 }
